@@ -38,3 +38,37 @@ Print Assumptions C08_reachable_inv.
 Print Assumptions C08_single_owner.
 Print Assumptions C08_alloc_was_free.
 Print Assumptions C08_release.
+
+(* ---- the allocator's scans over one refcount slice (Model/Alloc.v; compared with RefBlock::get_free_range /
+   get_tail_free_range / alloc_range of the compiled code on random slices by checks/c08.py) ---- *)
+From Q.Model Require Import Alloc.
+From Q.Proofs Require Import AllocProps.
+
+Theorem C08_scan_hands_out_free_entries : forall l start count a b,
+  (start + count <= length l)%nat ->
+  get_free_range l start count = Some (a, b) ->
+  b = (a + count)%nat /\ (start <= a)%nat /\ (b <= length l)%nat /\
+  (forall j, (a <= j < b)%nat -> rc_at l j = 0%N) /\
+  (forall s, (start <= s < a)%nat -> exists j, (s <= j < s + count)%nat /\ rc_at l j <> 0%N).
+Proof. exact get_free_range_sound. Qed.
+
+Theorem C08_scan_complete : forall l start count,
+  (start + count <= length l)%nat ->
+  get_free_range l start count = None ->
+  forall s, (start <= s)%nat -> (s + count <= length l)%nat -> exists j, (s <= j < s + count)%nat /\ rc_at l j <> 0%N.
+Proof. exact get_free_range_complete. Qed.
+
+Theorem C08_tail_scan : forall l a b,
+  get_tail_free_range l = Some (a, b) ->
+  b = length l /\ (0 < a < b)%nat /\ rc_at l (a - 1) <> 0%N /\ forall j, (a <= j < b)%nat -> rc_at l j = 0%N.
+Proof. exact get_tail_free_range_sound. Qed.
+
+Theorem C08_alloc_range_increments : forall n l s j,
+  (s + n <= length l)%nat ->
+  rc_at (alloc_range l s n) j = if (Nat.leb s j) && (Nat.ltb j (s + n)%nat) then (rc_at l j + 1)%N else rc_at l j.
+Proof. exact alloc_range_spec. Qed.
+
+Print Assumptions C08_scan_hands_out_free_entries.
+Print Assumptions C08_scan_complete.
+Print Assumptions C08_tail_scan.
+Print Assumptions C08_alloc_range_increments.
